@@ -47,7 +47,9 @@ def fz(v) -> str:
         v = _unmask(v)
     if isinstance(v, np.ndarray):
         v = v.tolist()
-    if isinstance(v, (list, tuple)):
+    if isinstance(v, tuple):  # (a tuple handed to a function is not a list)
+        return "(" + ",".join(fz(x) for x in v) + ")"
+    if isinstance(v, list):
         return "[" + ",".join(fz(x) for x in v) + "]"
     if isinstance(v, np.generic):
         v = v.item()
